@@ -3785,3 +3785,33 @@ theorem opMod_toInt {f : Fmt} {a b : Limbs} (hw : 1 ≤ f.w) (hn : 1 ≤ f.n) (h
 
 end Cnl.Wide.DivOp
 
+/-! ## Kara: what an odd level of `eval_multiply_kara_n_by_n_to_2n` reads of its operands -/
+namespace Cnl.Wide.Kara
+
+theorem slice_lo {a a' : Limbs} {n : Nat} (h : a.take (n - 1) = a'.take (n - 1)) (hn : 1 ≤ n) :
+    slice a 0 (n / 2) = slice a' 0 (n / 2) := by
+  unfold slice
+  simp only [List.drop_zero]
+  have e : ∀ l : Limbs, l.take (n / 2) = (l.take (n - 1)).take (n / 2) := by
+    intro l; rw [List.take_take]; congr 1; omega
+  rw [e a, e a', h]
+
+theorem slice_hi {a a' : Limbs} {n : Nat} (h : a.take (n - 1) = a'.take (n - 1)) (hodd : n % 2 = 1) :
+    slice a (n / 2) (n / 2) = slice a' (n / 2) (n / 2) := by
+  unfold slice
+  have e : ∀ l : Limbs, (l.drop (n / 2)).take (n / 2) = ((l.take (n - 1)).drop (n / 2)).take (n / 2) := by
+    intro l
+    rw [List.drop_take, List.take_take]
+    congr 1; omega
+  rw [e a, e a', h]
+
+/-- (routine before 38967ec) an odd level above the cutoff reads only the low `n - 1` limbs of each operand (`nh = (n-1)/2`, twice) -/
+theorem karaOrig_odd_drops_top_limbs (w fuel n : Nat) (a a' b b' r t : Limbs) (hn : karaCutoff < n) (hodd : n % 2 = 1)
+    (ha : a.take (n - 1) = a'.take (n - 1)) (hb : b.take (n - 1) = b'.take (n - 1)) :
+    karaOrig w (fuel + 1) n a b r t = karaOrig w (fuel + 1) n a' b' r t := by
+  have h1 : 1 ≤ n := by unfold karaCutoff at hn; omega
+  simp only [karaOrig, if_neg (Nat.not_le.mpr hn)]
+  rw [slice_lo ha h1, slice_hi ha hodd, slice_lo hb h1, slice_hi hb hodd]
+
+end Cnl.Wide.Kara
+
